@@ -232,6 +232,21 @@ def programs(draw, tier):
     return {"dt": dt, "operands": operands, "steps": steps, "psd": domA != "any"}
 
 
+def _mul_factor_scale(r):
+    """Sum over the Mul nodes of a recipe of the largest magnitudes of their two factors: (A + e I) o (B + e I) - A o B =
+    e (diag A + diag B) + e^2, which the magnitude model |A| o |B| of the product does not see when a factor is zero."""
+    tot = 0.0
+    for nd in R.walk(r):
+        if nd["op"] == "Mul":
+            for c in nd["args"]:
+                try:
+                    m = refmodel.dense_abs(c)
+                    tot += float(m.max()) if m.numel() else 0.0
+                except Exception:
+                    tot += 1.0
+    return tot
+
+
 def strategy(tier):
     return programs(tier)
 
@@ -259,7 +274,7 @@ def check(case):
                 lib = R.build(r)
             except Exception as e:
                 raise Violation("C02|build|%s|exc:%s" % (r["op"], X.describe(e)), "constructor raised %r for %s" % (e, R.class_path(r)))
-            pool.append({"jitv": R.LAST_BUILD_JITTER, "lib": lib, "ref": refmodel.dense(r), "mag": refmodel.dense_abs(r), "head": r["op"], "psd": case.get("psd", False), "loose": any(nn["op"] == "Mul" for nn in R.walk(r)), "depth": R.depth(r)})
+            pool.append({"jit": _mul_factor_scale(r) if R.LAST_BUILD_JITTER > 0 else 0.0, "jitv": R.LAST_BUILD_JITTER, "lib": lib, "ref": refmodel.dense(r), "mag": refmodel.dense_abs(r), "head": r["op"], "psd": case.get("psd", False), "loose": any(nn["op"] == "Mul" for nn in R.walk(r)), "depth": R.depth(r)})
             labels += ["class:" + c for c in R.classes(r)]
         else:
             t = L.materialise(o["t"])
@@ -305,6 +320,9 @@ def check(case):
                 jit_scale = (jit_scale + 1.0) * (1.0 + float(mag_a.max()) + float(b["mag"].max()))
             elif k == "matmul":
                 fn_lib, ref, mag = (lambda: a["lib"] @ b["lib"]), torch.matmul(ref_a, b["ref"]), torch.matmul(mag_a, b["mag"])
+                # (A + dA)(B + dB) - A B with DIAGONAL dA, dB (jitter e times the factor magnitudes of a Mul operand): each
+                # operand's jitter scale is multiplied by the OTHER operand's magnitude (no sum over the inner dimension)
+                jit_scale = (a.get("jit", 0.0) + 1.0) * (1.0 + float(b["mag"].max()) if b["mag"].numel() else 1.0) + (b.get("jit", 0.0) + 1.0) * (1.0 + float(mag_a.max()) if mag_a.numel() else 1.0)
             else:
                 from linear_operator.operators import cat as lo_cat
 
